@@ -149,6 +149,24 @@ impl ConfirmationActor {
 
 // Message types for different operations
 
+/// Verification hooks (compiled only with `--cfg sierradb_verif`): hold the confirmation actor
+/// back before it applies an update, as a busy mailbox or a slow scheduler would.
+#[cfg(sierradb_verif)]
+pub mod verif {
+    use std::sync::atomic::{AtomicU64, Ordering};
+    use std::time::Duration;
+
+    /// Milliseconds to wait before `UpdateConfirmationWithBroadcast` is applied (0 = none).
+    pub static UPDATE_DELAY_MS: AtomicU64 = AtomicU64::new(0);
+
+    pub(super) async fn update_delay() {
+        let ms = UPDATE_DELAY_MS.load(Ordering::SeqCst);
+        if ms > 0 {
+            tokio::time::sleep(Duration::from_millis(ms)).await;
+        }
+    }
+}
+
 /// Update confirmation and broadcast confirmed events atomically
 #[derive(Debug, Clone, Serialize, Deserialize)]
 pub struct UpdateConfirmationWithBroadcast {
@@ -166,6 +184,9 @@ impl Message<UpdateConfirmationWithBroadcast> for ConfirmationActor {
         msg: UpdateConfirmationWithBroadcast,
         _ctx: &mut Context<Self, Self::Reply>,
     ) -> Self::Reply {
+        #[cfg(sierradb_verif)]
+        verif::update_delay().await;
+
         // Update confirmations
         let mut results = SmallVec::new();
         for version in &msg.versions {
